@@ -560,6 +560,12 @@ func (e *Engine) verifyFuncPass(fn *ssa.Function, fc *FuncContract, sweepProps [
 		res.fr.exitBlock = pt.block
 		vc.exitObligations(fn, fc, args, bind, pt.st, pt.results, pt.suffix, res.fr)
 	}
+	for _, ac := range fc.AtCalls {
+		if vc.atCallSeen[ac.Clause.Name] == 0 {
+			// vacuity guard: an atcall clause must meet one call site at least
+			panic(unsupported("atcall clause #" + ac.Clause.Name + " matches no call site (callee pattern " + ac.Pat.String() + ")"))
+		}
+	}
 	for _, c := range fc.Ensures {
 		if c.Internal && vc.internalSeen[c.Name] == 0 {
 			// vacuity guard: an internal clause must be checked at one exit at least
